@@ -125,6 +125,14 @@ def run(tier):
                             {"task": {k: v for k, v in t.items() if k != "_b"}, "expected_reads": b["expect"], "observed": r})
     check.sample({"direction": "spec->impl", "behaviour": behaviours[len(behaviours) // 2]})
 
+    # ---- every block size, any number of requests: PoolProof.tla (the allocator's arithmetic as in Pool.tla, Size a symbolic
+    # constant >= 1) is proved with the TLA+ proof system: the cursor invariant is inductive and implies that Get never returns a
+    # handle twice
+    nobl = core.tlapm("PoolProof")
+    check.cov["tlaps_obligations_proved"] = nobl
+    check.cov["tlc_runs"].append({"spec": "PoolProof (tlapm: InitInv, StepInv, StepFresh, Invariant; Size symbolic)", "kind": "proof",
+                                  "distinct_states": 0, "states_generated": 0, "depth": 0, "wall_s": 0, "obligations_proved": nobl})
+
     # ---- the abstract promise (PoolAbs.tla: Fresh, NonInterference) on runs far longer than TLC enumerates: many block sizes
     # (powers of two and not, below and above the default) x tens of thousands of requests
     lsizes = [1, 2, 3, 5, 7, 8, 12, 100, 1000, 1023, 1024, 1025, 1500, 4096, 5000, 8192, 10000]
